@@ -152,7 +152,29 @@ func genIPv6(t *rapid.T) string {
 
 // genDateLike builds a member of the date-like language with the given
 // separators; nfields 1,2,3,6.
+// dstGaps: wall-clock instants that do not exist in some time zone (the clocks were put forward
+// over them, in Samoa a whole day was skipped) - ordinary members of the date languages, which
+// know no time zone.  The zones are the ones C05 runs under (c05Zones).
+var dstGaps = [][6]int{
+	{2022, 3, 13, 2, 30, 0}, {2024, 3, 10, 2, 0, 0}, // America/New_York
+	{2018, 11, 4, 0, 0, 0}, {2017, 10, 15, 0, 30, 59}, // America/Sao_Paulo (midnight: the date alone falls into the gap)
+	{2011, 12, 30, 0, 0, 0}, {2011, 12, 30, 12, 0, 0}, // Pacific/Apia
+	{2023, 3, 26, 2, 30, 0}, // Europe/Berlin
+	{2023, 4, 28, 0, 0, 0}, // Africa/Cairo
+	{2023, 10, 1, 2, 15, 0}, // Australia/Lord_Howe (half-hour shift)
+}
+
+var c05Zones = []string{"America/New_York", "America/Sao_Paulo", "Pacific/Apia", "Europe/Berlin", "Africa/Cairo", "Australia/Lord_Howe", "Asia/Shanghai"}
+
 func genDateLike(t *rapid.T, nfields int, seps [3]string) string {
+	if nfields >= 3 && rapid.IntRange(0, 7).Draw(t, "dstGap") == 0 {
+		g := rapid.SampledFrom(dstGaps).Draw(t, "gap")
+		out := fmt.Sprintf("%04d%s%02d%s%02d", g[0], seps[0], g[1], seps[0], g[2])
+		if nfields >= 6 {
+			out += seps[1] + fmt.Sprintf("%02d%s%02d%s%02d", g[3], seps[2], g[4], seps[2], g[5])
+		}
+		return out
+	}
 	y := rapid.SampledFrom([]int{1996, 2000, 2023, 2024, 1900, 2100, 1, 9999, 0}).Draw(t, "year")
 	m := rapid.IntRange(1, 12).Draw(t, "month")
 	dim := []int{31, 28, 31, 30, 31, 30, 31, 31, 30, 31, 30, 31}[m-1]
